@@ -1,7 +1,7 @@
 ----------------------------- MODULE MC_Checksum -----------------------------
 (***************************************************************************)
 (* CHECKSUM suite (C12, C06): the typed checksum map over algorithm names   *)
-(* {a, A, b, "a:b", E-acute, Dz-titlecase, empty} and hex texts {empty, 00, *)
+(* {a, A, a1, "a:b", AE-acute, Dz-titlecase, empty} and hex texts {empty, 00,*)
 (* 0A, 0a, xx, 0}; every op from every reachable map with at most K entries;*)
 (* and, for every well-formed map, every spelling (entry order x letter     *)
 (* case) of its text inside a PURL.                                         *)
@@ -9,7 +9,9 @@
 EXTENDS Checksum, PurlGrammar, Json, TLCExt
 CONSTANTS K
 
-Algs == {<<97>>, <<65>>, <<98>>, <<97,58,98>>, <<201>>, <<453>>, <<>>}
+\* a  A  a1 (prefix + digit: sorts before "a:" as text, after "a" as name)  a:b  A-E-acute (ASCII capital before a
+\* non-ASCII capital)  Dz-titlecase  empty;  thorough adds b and E-acute
+Algs == {<<97>>, <<65>>, <<97,49>>, <<97,58,98>>, <<65,201>>, <<453>>, <<>>} \cup (IF K >= 3 THEN {<<98>>, <<201>>} ELSE {})
 Hexes == {<<>>, <<48,48>>, <<48,65>>, <<48,97>>, <<120,120>>, <<48>>}
 ByteSeqs == {<<>>, <<0>>, <<10, 255>>}
 Texts == {<<>>, <<97,58,48,48>>, <<66,58,48,65,44,97,58,102,70>>, <<97,58,48,48,44,65,58,49,49>>, <<122,122>>, <<97,58,98,58,48,48>>, <<58>>}
